@@ -1718,7 +1718,7 @@ func callBin(n *node) {
 			for i, v := range values {
 				in[i] = fixArg(getBinValue(getMapType, v, f))
 			}
-			go callFn(value(f), in)
+			go callFn(fixArg(value(f)), in)
 			return tnext
 		}
 	case fnext != nil:
